@@ -156,6 +156,13 @@ fn cmp_case(em: &mut Emitter, a: &[u8], b: &[u8], ca: &[u8], cb: &[u8]) {
             let cer = match (take_os(1, Tag::OCTET_STRING, a), take_os(1, Tag::OCTET_STRING, b)) {
                 (Some(p), Some(q)) => Some((p == q, p.cmp(&q), hash_calls(&p) == hash_calls(&q), p == y, x == q)),
                 _ => None };
+            // the same two values as restricted character strings (when their octets are IA5): the wrapper's
+            // comparison and hashing are by content, too
+            if let (Ok(p), Ok(q)) = (bcder::Ia5String::new(x.clone()), bcder::Ia5String::new(y.clone())) {
+                let same = ca == cb;
+                let hp = { let mut h = DefaultHasher::new(); p.hash(&mut h); h.finish() }; let hq = { let mut h = DefaultHasher::new(); q.hash(&mut h); h.finish() };
+                if (p == q) != same || p.cmp(&q) != ca.cmp(cb) || p.partial_cmp(&q) != Some(ca.cmp(cb)) || (same && hp != hq) { return Some((x == y, x.cmp(&y), false, None, cer)) }
+            }
             Some((x == y, x.cmp(&y), hash_of(&x) == hash_of(&y) && hash_calls(&x) == hash_calls(&y), x.partial_cmp(&y), cer))
         });
         match r {
